@@ -12,6 +12,9 @@ RULE = ("a case is a program: open/write_segment/close calls; slices: structure 
 CONFIGS = {
     "quick": [("MC_C07", "MC_C07_struct.cfg", {"MaxCalls": 2}),
               ("MC_C07", "MC_C07_classes.cfg", {"MaxCalls": 2, "Lens": "{0, 3}"}),
+              # arrays larger than any internal block size (1 MiB), to a stream and to a path
+              ("MC_C07", "MC_C07_classes.cfg", {"MaxCalls": 1, "MaxSessions": 1, "Lens": "{150001}",
+                                                "ArrayClasses": "c_BigClasses", "ObjSeqs": "c_SeqsA"}),
               ("MC_C07", "MC_C07_props.cfg", {"MaxCalls": 1, "PropNamesW": '{"p1"}'}),
               ("MC_C07", "MC_C07_props.cfg", {"MaxCalls": 2, "ValueClasses": "c_FewValueClasses", "PropNamesW": '{"p1"}'})],
     "thorough": [("MC_C07", "MC_C07_struct.cfg", {"MaxCalls": 3, "Lens": "{2}"}),
